@@ -35,6 +35,8 @@
  *   .                          end of the block
  * If libnev terminates the process from inside a call (exit(1) on "stack too large"/"out of memory") an
  * atexit handler prints  "EXIT-IN-CALL <index>" + OUT/ERR + for execute the EXE line known so far.
+ * If a sanitizer or a signal kills the process inside a call the capture files <SCRIPT>.cap.out / .cap.err are
+ * left behind (ASan reports go to ASAN_OPTIONS=log_path=..., UBSan reports to the captured fd 2).
  * At end of script: "END <ops>"; remaining handles are deleted (vm first).
  */
 #define _GNU_SOURCE
@@ -67,7 +69,7 @@ static char * prog_args[NH][16];     /* keeps string arguments alive */
 static vm * vms[NH];
 
 static int cap_out = -1, cap_err = -1, saved_out = -1, saved_err = -1;
-static char cap_out_name[64], cap_err_name[64];
+static char cap_out_name[4200], cap_err_name[4200];
 static int in_call = 0, cur_index = 0, cur_is_exec = 0;
 
 /* step hook state */
@@ -129,7 +131,7 @@ static void step_hook(vm * m, bytecode * bc)
 
 static void on_exit_handler(void)
 {
-    if (!in_call) return;
+    if (!in_call) { unlink(cap_out_name); unlink(cap_err_name); return; }
     fflush(stdout); fflush(stderr);
     dup2(saved_out, 1); dup2(saved_err, 2);
     fprintf(out, "EXIT-IN-CALL %d\n", cur_index);
@@ -144,6 +146,7 @@ static void on_exit_handler(void)
         fprintf(out, " steps=%lu state=exit\n", h_steps);
     }
     fflush(out);
+    unlink(cap_out_name); unlink(cap_err_name);
 }
 
 /* ---- digests ------------------------------------------------------------------------------- */
@@ -318,11 +321,14 @@ int main(int argc, char ** argv)
     if (!sc) { perror(argv[1]); return 2; }
     out = fdopen(dup(1), "w");
     saved_out = dup(1); saved_err = dup(2);
-    snprintf(cap_out_name, sizeof cap_out_name, "/var/tmp/apidrive.o.XXXXXX");
-    snprintf(cap_err_name, sizeof cap_err_name, "/var/tmp/apidrive.e.XXXXXX");
-    cap_out = mkstemp(cap_out_name); cap_err = mkstemp(cap_err_name);
-    if (cap_out < 0 || cap_err < 0) { perror("mkstemp"); return 2; }
-    unlink(cap_out_name); unlink(cap_err_name);       /* anonymous from here on: nothing is left behind */
+    /* capture files live beside the script; they are removed on every orderly end (return, exit()).  If a
+       sanitizer or a signal kills the process inside a call they stay, and the caller finds in <script>.cap.err
+       what went to fd 2 (UBSan reports, the library's last words). */
+    snprintf(cap_out_name, sizeof cap_out_name, "%s.cap.out", argv[1]);
+    snprintf(cap_err_name, sizeof cap_err_name, "%s.cap.err", argv[1]);
+    cap_out = open(cap_out_name, O_CREAT | O_TRUNC | O_RDWR, 0600);
+    cap_err = open(cap_err_name, O_CREAT | O_TRUNC | O_RDWR, 0600);
+    if (cap_out < 0 || cap_err < 0) { perror("capture files"); return 2; }
     atexit(on_exit_handler);
 #ifdef NEVER_VERIF
     nev_verif_step_hook = step_hook;
